@@ -327,3 +327,158 @@ PROPS['C16'] = dict(
          'inputs up to 40 batches with queue lengths 1-4; non-trivial = more batches than data sets (recycling happened)',
     assumptions=ASSUME_PAR + ['memory is not measured; the claim is carried by the counts of data sets'],
 )
+
+
+class GroupRunner(ReaderRunner):
+    """Reader cases that come in groups of fixed size (same input under several configurations, or
+    several encodings of one file); the group oracle compares the members with each other."""
+
+    def __init__(self, quick, thorough, group_size, group_oracle, oracle=None, keep_growth=False):
+        ReaderRunner.__init__(self, quick, thorough, oracle, keep_growth)
+        self.group_size = group_size
+        self.group_oracle = group_oracle
+
+    def _post(self, res, fam, cases, impl, spec):
+        if fam == 'corpus' or not (fam.endswith('_cfg') or fam.endswith('_recode')):
+            return 0
+        g = self.group_size
+        nt = 0
+        for i in range(0, len(cases) - g + 1, g):
+            group = []
+            for c, o in zip(cases[i:i + g], impl[i:i + g]):
+                toks, _ = split_obs(canon(o))
+                group.append((parse_case(c), toks))
+            msg = self.group_oracle(group)
+            if msg:
+                if len(res.oracle_failures) < 200:
+                    res.oracle_failures.append(('\n'.join(cases[i:i + g]), msg, impl[i][:300]))
+            elif any(t.startswith('R:') or t.startswith('E:') for t in group[0][1]):
+                nt += 1
+        return nt
+
+    def run(self, res, tier, seed, corpus):
+        engine.run_reader_families(res, self.fams[tier], seed, self.raw_oracle, self.keep_growth, self.exact, corpus, post=self._post)
+
+    def search(self, res, seed, drift):
+        for rnd in range(2):
+            r2 = engine.Result(res.prop)
+            engine.run_reader_families(r2, self.search_fams, seed + 7919 * (rnd + 1), self.raw_oracle, self.keep_growth,
+                                       exact=False, post=self._post)
+            res.evaluations += r2.evaluations
+            if r2.oracle_failures:
+                return r2.oracle_failures[0]
+        return None
+
+    def minimise(self, case, msg, obs):
+        if '\n' in case:
+            return case, msg, obs
+        return ReaderRunner.minimise(self, case, msg, obs)
+
+
+def cfg_group(group):
+    return oracles.config_group_oracle(group)
+
+
+def recode_group(group):
+    return oracles.recode_group_oracle(group[0][0]['fmt'], group)
+
+
+def unchanged(case, toks, log, items):
+    if case['kind'] != 'R':
+        return None
+    return oracles.unchanged_oracle(case, toks)
+
+
+def faults(case, toks, log, items):
+    return oracles.fault_oracle(case, toks, items)
+
+
+def errpos(case, toks, log, items):
+    v = oracles.history_oracle(case, toks, items, positions=False, err_fields=True, sets=False)
+    if v.failures:
+        return v
+    v2 = oracles.message_oracle(case, toks)
+    v2.nontrivial = v2.nontrivial
+    return v2
+
+
+PROPS['C03'] = dict(
+    theorems=[],
+    runner=GroupRunner(
+        quick=[('fa_cfg', 3000), ('fq_cfg', 3000)], thorough=[('fa_cfg', 60000), ('fq_cfg', 60000)],
+        group_size=6, group_oracle=cfg_group, oracle=hist(True, True, False)),
+    rule='every generated input (valid, mutated) is read under six configurations (capacity 3 with 1-byte reads; small capacity with a '
+         'slowly growing policy, 2-byte reads and interrupted reads; capacity near the input length; 64; larger than the input; '
+         'table-driven policy) and the complete observation streams (records, positions, errors with all fields, place of the end) are '
+         'compared with each other; non-trivial group = at least one record or error',
+    assumptions=ASSUME_READER,
+)
+
+PROPS['C12'] = dict(
+    theorems=[],
+    runner=GroupRunner(
+        quick=[('fa_recode', 2500), ('fq_recode', 2500)], thorough=[('fa_recode', 50000), ('fq_recode', 50000)],
+        group_size=6, group_oracle=recode_group, oracle=hist(False, True, False)),
+    rule='each generated well-formed file (fields free of CR/LF) in six encodings (LF/CRLF x final terminator present/absent; FASTA: '
+         'two random per-line mixtures; FASTQ: with trailing blank lines) under random capacities; headers, sequence lines, qualities '
+         'and line numbers compared across the encodings; no CR in any returned field',
+    assumptions=ASSUME_READER,
+)
+
+PROPS['C11'] = dict(
+    theorems=[],
+    runner=GroupRunner(
+        quick=[('w_fq', 10000), ('fq_recode', 2500), ('fa_recode', 2500)],
+        thorough=[('w_fq', 200000), ('fq_recode', 50000), ('fa_recode', 50000)],
+        group_size=6, group_oracle=lambda g: None, oracle=unchanged),
+    rule='FASTQ writer entry points on random fields (round trip through the real reader), and write_unchanged of every record of '
+         'well-formed files in six encodings: the concatenated output must reproduce the input bytes up to the final terminator '
+         '(FASTQ: trailing blank lines dropped)',
+    assumptions=ASSUME_READER + ['io::Write into a Vec<u8> never fails'],
+)
+
+PROPS['C14'] = dict(
+    theorems=['fill_buf_behaviour', 'no_fail_no_error', 'interrupted_invisible'],
+    runner=ReaderRunner(
+        quick=[('fa_sweep', 300), ('fq_sweep', 300), ('fa_fault', 3000), ('fq_fault', 3000)],
+        thorough=[('fa_sweep', 6000), ('fq_sweep', 6000), ('fa_fault', 60000), ('fq_fault', 60000)],
+        oracle=faults),
+    rule='for each generated input a failure injected at the k-th source call for every k (with interrupted reads in between), six error '
+         'kinds, plus random histories with read and seek failures; oracle: records before the failure are the leading records of S, the '
+         'failing call returns Io with the injected kind',
+    assumptions=ASSUME_READER,
+)
+
+PROPS['C17'] = dict(
+    theorems=[],
+    runner=ReaderRunner(
+        quick=[('fq_exh', 5), ('fa_exh', 5), ('fq_rand', 15000), ('fa_rand', 5000), ('fq_cfg', 1000)],
+        thorough=[('fq_exh', 7), ('fa_exh', 7), ('fq_rand', 300000), ('fa_rand', 100000), ('fq_cfg', 30000), ('fa_cfg', 30000)],
+        oracle=errpos),
+    rule='malformed inputs (exhaustive small strings, mutated files) at all capacities: error kind and every field compared with S, '
+         'message text compared byte-exactly with the model of Display and checked to contain the reported values',
+    assumptions=ASSUME_READER,
+)
+
+PROPS['C13'] = dict(
+    theorems=['num_lines_eq_iter_len', 'num_lines_eq_lines', 'owned_eq_lines_concat', 'single_line_borrowable',
+              'id_desc_split', 'utf8_header_iff_parts'],
+    runner=ReaderRunner(
+        quick=[('fa_rand', 10000), ('fq_rand', 10000), ('fa_hist', 3000), ('fq_hist', 3000)],
+        thorough=[('fa_rand', 200000), ('fq_rand', 200000), ('fa_hist', 60000), ('fq_hist', 60000)],
+        oracle=None),
+    rule='every accessor of every record (head, sequence lines, raw sequence, owned sequence, full_seq borrowed/owned, num_seq_lines, '
+         'id/desc bytes three ways, UTF-8 verdicts of id()/desc()/id_desc(), owned copies, records of record sets) compared with the model; '
+         'headers include non-UTF-8 bytes, empty headers, several and leading spaces',
+    assumptions=ASSUME_READER,
+)
+PROPS['C10']['theorems'] = ['write_to_roundtrip', 'write_parts_roundtrip', 'write_many_roundtrip', 'wrap_widths',
+                            'wrap_iter_eq_whole', 'write_wrap_roundtrip']
+
+
+# theorems that must be present in each property's module (committed list; a theorem that disappears
+# from its module is reported, see run.prove)
+import json as _json, os as _os
+_req = _json.load(open(_os.path.join(run.LEAN, 'REQUIRED_THEOREMS.json')))
+for _k, _v in PROPS.items():
+    _v['theorems'] = _req.get(_k, [])
